@@ -49,7 +49,7 @@ Proof.
   - destruct ((if mtu - 2 <? zlen body then mtu - 2 else zlen body) <=? 0) eqn:E2;
       [exists []; split; [reflexivity|apply frags_ok_nil]|].
     assert (Hm : 1 <= mtu - 2) by (destruct (mtu - 2 <? zlen body) eqn:?; lia).
-    destruct (fua_frags_ok (S (length body)) (mtu - 2) (Z.land b0 96) (Z.land b0 31) (zlen body) body Hm ltac:(lia))
+    destruct (fua_frags_ok (S (length body)) (mtu - 2) (Z.land b0 224) (Z.land b0 31) (zlen body) body Hm ltac:(lia))
       as (fs & Hrun & Hok).
     exists fs. split; [exact Hrun|]. replace mtu with (mtu - 2 + 2) at 1 by lia. exact Hok.
 Qed.
